@@ -405,3 +405,163 @@ def feasible(order, nchunks, k):
             running.append(nxt)
             nxt += 1
     return not running
+
+
+# ----------------------------------------------------------------------------- concurrent.futures under control
+
+class _CFuture(object):
+    """Future of a ControlledExecutor: completes when the explorer says so"""
+
+    def __init__(self, ex, q):
+        self._ex, self._q = ex, q
+        self._callbacks = []
+
+    def done(self):
+        return self._q in self._ex._pool._done
+
+    def running(self):
+        return self._q in self._ex._pool._running
+
+    def cancelled(self):
+        return False
+
+    def cancel(self):
+        return False
+
+    def result(self, timeout=None):
+        _AsyncResult(self._ex._pool, [self._q], lambda: None).wait(timeout, _raise=False)
+        if not self.done():
+            import concurrent.futures
+            raise concurrent.futures.TimeoutError()
+        kind, val = self._ex._results[self._q]
+        if kind == "err":
+            raise val
+        return val
+
+    def exception(self, timeout=None):
+        self._ex._pool._advance_until([self._q])
+        kind, val = self._ex._results[self._q]
+        return val if kind == "err" else None
+
+    def add_done_callback(self, fn):
+        if self.done():
+            fn(self)
+        else:
+            self._callbacks.append(fn)
+
+
+class ControlledExecutor(object):
+    """stands in for concurrent.futures.ThreadPoolExecutor / ProcessPoolExecutor: tasks run in-process, in the
+    completion order the Chooser picks; as_completed()/wait() observe that order"""
+
+    def __init__(self, chooser, max_workers=None, *a, **kw):
+        self._pool = ControlledPool(chooser, max_workers or 4)
+        self._results = {}
+        self._futures = {}
+
+    def submit(self, fn, *args, **kwargs):
+        ex = self
+
+        def task(_):
+            try:
+                return ("ok", fn(*args, **kwargs))
+            except BaseException as e:      # delivered through the future, as the real executor does
+                return ("err", e)
+        holder = {}
+
+        def on_chunk(batch, ch):
+            q = holder["q"]
+            ex._results[q] = batch["results"][0]
+            for cb in ex._futures[q]._callbacks:
+                cb(ex._futures[q])
+        b = self._pool._submit("apply_async", task, [0], False, on_chunk=on_chunk)
+        q = b["ids"][0]
+        holder["q"] = q
+        f = _CFuture(self, q)
+        self._futures[q] = f
+        return f
+
+    def map(self, fn, *iterables, timeout=None, chunksize=1):
+        fs = [self.submit(fn, *args) for args in zip(*iterables)]
+
+        def gen():
+            for f in fs:
+                yield f.result()
+        return gen()
+
+    def shutdown(self, wait=True, cancel_futures=False):
+        if wait:
+            self._pool._drain()
+
+    def __enter__(self):
+        return self
+
+    def __exit__(self, *exc):
+        self.shutdown(wait=True)
+        return False
+
+
+def controlled_as_completed(fs, timeout=None):
+    fs = list(fs)
+    pending = [f for f in fs if isinstance(f, _CFuture) and not f.done()]
+    for f in fs:
+        if not isinstance(f, _CFuture) or f.done():
+            yield f
+    while pending:
+        pool = pending[0]._ex._pool
+        before = set(pool._done)
+        pool._complete_one()
+        for f in list(pending):
+            if f.done():
+                pending.remove(f)
+                yield f
+        if set(pool._done) == before:
+            raise RuntimeError("controlled executor made no progress")
+
+
+def controlled_wait(fs, timeout=None, return_when="ALL_COMPLETED"):
+    import collections
+    fs = list(fs)
+    done = set(f for f in fs if not isinstance(f, _CFuture) or f.done())
+    for f in controlled_as_completed([f for f in fs if f not in done]):
+        done.add(f)
+        if return_when == "FIRST_COMPLETED":
+            break
+    R = collections.namedtuple("DoneAndNotDoneFutures", "done not_done")
+    return R(done, set(fs) - done)
+
+
+class patched_executors(object):
+    """context manager: concurrent.futures executors (and the names modules imported from it) are replaced by
+    controlled ones driven by `chooser` for the duration of the block"""
+
+    def __init__(self, chooser, module_prefix="aotools"):
+        self.chooser, self.prefix = chooser, module_prefix
+        self.saved = []
+
+    def __enter__(self):
+        import concurrent.futures as cf
+        import sys
+        chooser = self.chooser
+
+        def factory(*a, **kw):
+            mw = kw.get("max_workers", a[0] if a else None)
+            return ControlledExecutor(chooser, mw)
+        repl = {cf.ThreadPoolExecutor: factory, cf.ProcessPoolExecutor: factory,
+                cf.as_completed: controlled_as_completed, cf.wait: controlled_wait}
+        targets = [cf] + [m for n, m in list(sys.modules.items())
+                          if m is not None and (n == self.prefix or n.startswith(self.prefix + "."))]
+        for m in targets:
+            for k, v in list(vars(m).items()):
+                try:
+                    if v in repl:
+                        self.saved.append((m, k, v))
+                        setattr(m, k, repl[v])
+                except TypeError:
+                    pass
+        return self
+
+    def __exit__(self, *exc):
+        for m, k, v in self.saved:
+            setattr(m, k, v)
+        return False
